@@ -738,33 +738,45 @@ func (p *prop) runPol(f []string) core.Outcome {
 	return o
 }
 
-// checkSNIMatcher: sanity clauses on what the sni matcher answers (so that a broken matcher
-// shows up as a concrete failing input, not only as a model disagreement).
-func (p *prop) checkSNIMatcher(names []string, sni string, got bool, fail func(string, string)) {
-	anyStar := false
-	for _, n := range names {
-		if strings.Contains(n, "*") {
-			anyStar = true
+// refWildcard is the documented rule for one configured name (certmagic.MatchWildcard, RFC 6125
+// style, case-insensitive): equal names match; otherwise the name must contain `*` and equal the
+// hello's name with its first k non-empty labels (k = 1, 2, …) each replaced by `*`.
+// Written from the rule, independently of caddy/certmagic code.
+func refWildcard(subject, wildcard string) bool {
+	subject, wildcard = asciiLower(subject), asciiLower(wildcard)
+	if subject == wildcard {
+		return true
+	}
+	if !strings.Contains(wildcard, "*") {
+		return false
+	}
+	labels := strings.Split(subject, ".")
+	for i := range labels {
+		if labels[i] == "" {
+			continue
 		}
-		if foldEq(n, sni) && !got {
-			fail("sni-matcher-misses-listed-name", fmt.Sprintf("sni %q lists %q but does not match hello %q", names, n, sni))
-			return
-		}
-		// "*.rest" must match "<label>.rest" for a non-empty dot-free label
-		if strings.HasPrefix(n, "*.") && !strings.Contains(n[2:], "*") {
-			if i := strings.IndexByte(sni, '.'); i > 0 && foldEq(sni[i+1:], n[2:]) && !got {
-				fail("sni-matcher-misses-wildcard", fmt.Sprintf("sni %q lists %q but does not match hello %q", names, n, sni))
-				return
-			}
+		labels[i] = "*"
+		if strings.Join(labels, ".") == wildcard {
+			return true
 		}
 	}
-	if !anyStar && got {
-		for _, n := range names {
-			if foldEq(n, sni) {
-				return
-			}
+	return false
+}
+
+// checkSNIMatcher: what the real sni matcher answers must be what the wildcard rule says (so that a
+// broken matcher shows up as a concrete failing input, not only as a model disagreement).
+func (p *prop) checkSNIMatcher(names []string, sni string, got bool, fail func(string, string)) {
+	want := false
+	for _, n := range names {
+		if refWildcard(sni, n) {
+			want = true
 		}
-		fail("sni-matcher-false-positive", fmt.Sprintf("sni %q (no wildcard) matches hello %q", names, sni))
+	}
+	switch {
+	case want && !got:
+		fail("sni-matcher-misses-name", fmt.Sprintf("sni %q does not match hello %q although a listed name covers it", names, sni))
+	case !want && got:
+		fail("sni-matcher-false-positive", fmt.Sprintf("sni %q matches hello %q although no listed name covers it", names, sni))
 	}
 }
 
